@@ -5,20 +5,25 @@ from core import hx, unhx
 import props.c10 as c10
 
 LEAN_MODULE = 'QM.Props.C13'
-THEOREMS = ['Cv.C13_one_per_name', 'Cv.C13_first_wins', 'Cv.C13_merge_order']
+THEOREMS = ['Cv.C13_one_per_name', 'Cv.C13_first_wins', 'Cv.C13_merge_order', 'Cv.C13_dropin_dirs', 'Cv.C13_dropins_one_per_name',
+            'Cv.C13_dropins_first_dir_wins', 'Cv.C13_dropins_complete', 'Cv.C13_dropins_name_order']
 ASSUMPTIONS = [
     'the directory tree is abstract (Cv.Tree); walkdir/read_dir are third-party behaviour represented by the listing order of the tree; within one directory the order is unspecified, so generated trees hold at most one copy of a name per search root',
     'Cv.runTree (search dirs with sub-directories, first-seen-wins, drop-in collection and merge, then the conversion loop) is compared with real --dry-run runs of the binary on generated trees (services printed, counts of load / drop-in / conversion errors)',
-    'the drop-in *set* (which .d directories are consulted, hiding by name, alphanumeric merge order) is checked on the real binary with origin markers in every file by an independent oracle; it is not proved over the model',
+    'the drop-in rule is proved over the model of load_dropins_from (Cv.dropinDirs / collectConfs / sortConfs): which directories are consulted and in which priority, one survivor per name taken from the first directory that has it, every name represented, merge in byte-wise name order; it is tied to the code by the whole-run correspondence and checked independently with origin markers on the real binary',
 ]
 LEVEL_TEXT = ('Proof (discovery fold) + whole-run correspondence + marker oracle: Lean theorems over the model of load_units_from_dir — for every candidate '
               'list (any number of search directories and files) exactly one unit is loaded per file name (C13_one_per_name) and it is the first file of '
               'that name in search order that can be loaded (C13_first_wins; invariant over the fold with its seen set); merging drop-ins appends their '
-              'assignments after the main file\'s in merge order (C13_merge_order, from C15). Partial with respect to the runtime: directory walking is '
-              'modelled by an abstract tree and tied by running the binary on generated trees; which drop-ins are collected, which one hides which, '
-              'and their merge order are checked with origin markers on real runs.')
+              'assignments after the main file\'s in merge order (C13_merge_order, from C15). Drop-ins (model of load_dropins_from): the directories '
+              'consulted are <dir>/<unit>.d of every directory of the search order and then, for a template instance, <dir>/<base>@.<type>.d '
+              '(C13_dropin_dirs); at most one drop-in per name is merged (C13_dropins_one_per_name), taken from the first directory in that '
+              'priority order that has the name (C13_dropins_first_dir_wins: hiding), every name found anywhere is merged '
+              '(C13_dropins_complete), in byte-wise name order whatever directory it came from (C13_dropins_name_order). Partial with respect '
+              'to the runtime: directory walking is modelled by an abstract tree and tied by running the binary on generated trees; the same '
+              'rule is checked independently with origin markers on real runs.')
 LEVEL_NOTE = 'Trusted: Lean kernel; whole-run correspondence; the Python statement of the drop-in rule. readdir order inside one directory is outside the model.'
-TECHNIQUE = 'Lean 4 invariant proof over the discovery fold (first-seen-wins, one per name) + whole-run model correspondence + origin-marker oracle on real runs'
+TECHNIQUE = 'Lean 4 invariant proofs over the discovery fold (first-seen-wins, one per name) and the drop-in collection (first directory wins, complete, name order) + whole-run model correspondence + origin-marker oracle on real runs'
 
 correspond = c10.correspond
 
